@@ -1,6 +1,9 @@
 import PhysisModel.Base.Proto
 import PhysisModel.Model.Crc
 import PhysisModel.Spec.Crc32
+import PhysisModel.Base.HexFast
+import PhysisModel.Model.Sha1
+import PhysisModel.Spec.Sha1
 namespace Physis.Driver.C12
 open Physis Physis.Proto
 
@@ -16,6 +19,11 @@ def handle (line : String) : String :=
     match Bytes.ofHexFast h with
     | some bs => answer "=" (toString (Spec.Crc32.crcBitwise 0 0 bs).toNat) []
         (some (toString (Crc.xivCrc Spec.Crc32.zlibCrc32 bs).toNat))
+    | none => bad
+  | ["sha1", h] =>
+    -- file digest (`FileInfo::new`): FIPS 180-4 SHA-1 vs. the model of `src/sha1.rs`
+    match Bytes.ofHexBig h with
+    | some bs => answer "=" (Bytes.toHex (Spec.Sha1.sha1 bs)) [] (some (Bytes.toHex (Sha1.sha1 bs)))
     | none => bad
   | _ => bad
 
